@@ -15,6 +15,7 @@
 # specific language governing permissions and limitations
 # under the License.
 import abc
+import contextlib
 import glob
 import json
 import logging
@@ -581,6 +582,12 @@ class DocumentSetPreparator:
     def has_expected_size(self, file_name, expected_size):
         return expected_size is None or os.path.getsize(file_name) == expected_size
 
+    def remove_stale_file_offset_table(self, document_file_path):
+        # The document file has just been extracted. An offset table that is still around belongs to the previous version of the file.
+        # It must not be reused even if it appears to be up-to-date: e.g. tar restores the (older) modification time of the archive.
+        with contextlib.suppress(FileNotFoundError):
+            io.remove_file_offset_table(document_file_path)
+
     def create_file_offset_table(self, document_file_path, expected_number_of_lines):
         # just rebuild the file every time for the time being. Later on, we might check the data file fingerprint to avoid it
         lines_read = io.prepare_file_offset_table(document_file_path)
@@ -618,6 +625,7 @@ class DocumentSetPreparator:
                 and self.has_expected_size(archive_path, document_set.compressed_size_in_bytes)
             ):
                 self.decompressor.decompress(archive_path, doc_path, document_set.uncompressed_size_in_bytes)
+                self.remove_stale_file_offset_table(doc_path)
             else:
                 if document_set.has_compressed_corpus():
                     target_path = archive_path
@@ -678,6 +686,7 @@ class DocumentSetPreparator:
             if document_set.has_compressed_corpus() and self.is_locally_available(archive_path):
                 if self.has_expected_size(archive_path, document_set.compressed_size_in_bytes):
                     self.decompressor.decompress(archive_path, doc_path, document_set.uncompressed_size_in_bytes)
+                    self.remove_stale_file_offset_table(doc_path)
                 else:
                     # treat this is an error because if the file is present but the size does not match, something is
                     # really fishy. It is likely that the user is currently creating a new track and did not specify
